@@ -262,12 +262,11 @@ inductive Out
   | parked (t : Thread) (g : G)
   | crash (g : G)
 
-/-- Core::Done<_, false>: release the caller (condition extracted), destroy the functor, publish;
-    a Detach core carries the Drop callback, which releases the core itself -/
+/-- Core::Done<_, false>: release the caller (condition extracted), destroy the functor, publish
+    (a Detach core carries the Drop callback, which releases the core itself when it is published: see `settle`) -/
 def doneAcct (ty : Nat) (kAsync : Bool) (g : G) : G :=
   let g := if Dispatch.doneDecRef ty kAsync false then g.freeCore else g
-  let g := if Dispatch.doneDestroysFunctor false then g.freeFunctor else g
-  if Dispatch.isDetach ty then g.freeCore else g
+  if Dispatch.doneDestroysFunctor false then g.freeFunctor else g
 
 /-- Core::CallResolveAsync after the functor returned: release the caller, destroy the functor -/
 def asyncRetAcct (ty : Nat) (g : G) : G :=
@@ -430,6 +429,10 @@ inductive Ctl
   | task (src : Src) (steps : List Step)  -- an unstarted Task is held
   | gone                                  -- nothing left
 
+def Ctl.isFuture : Ctl → Bool
+  | .future _ _ => true
+  | _ => false
+
 structure State where
   ctl : Ctl := .idle
   held : Bool := false      -- the client holds the Future / Task handle of the last core
@@ -483,9 +486,9 @@ def Thread.attach (t : Thread) (s : Step) : Thread :=
 def settle (st : State) (o : Out) : State :=
   match o with
   | .done r inh _ g =>
-    if st.ended then { st with ctl := .gone, result := some r, g := g }
-    else if st.held then { st with ctl := .future r inh, result := some r, g := g }
-    else { st with ctl := .gone, result := some r, g := g.freeCore }   -- the Drop callback releases the last core
+    if st.held then { st with ctl := .future r inh, result := some r, g := g }
+    -- nobody holds the last core (~Future, Detach(), a Detach*-step): its callback is MakeDrop(), which releases it
+    else { st with ctl := .gone, result := some r, g := g.freeCore }
   | .parked t g => { st with ctl := .pending t, g := g }
   | .crash g => { st with crashed := true, g := g }
 
@@ -674,6 +677,22 @@ mutual
     | [] => true
     | s :: ss => d10FreeStep s && d10FreeSteps ss
 end
+
+/-! ## Well-formed programs (what the C++ type system admits; the harness rejects the others) -/
+
+mutual
+  /-- a Run / Schedule source built by a functor comes with its head functor -/
+  def wfStep : Step → Bool
+    | .mk _ _ _ beh =>
+      (match beh with
+       | .async src _ steps => (!(src == .unit) || !steps.isEmpty) && wfSteps steps
+       | _ => true)
+  def wfSteps : List Step → Bool
+    | [] => true
+    | s :: ss => wfStep s && wfSteps ss
+end
+
+def wfProg (p : Prog) : Bool := wfSteps p.steps
 
 /-! ## Step identifiers in pipeline order -/
 
